@@ -409,6 +409,15 @@ def gen_ws_recv(rng):
     return "WR|" + ";".join(ops)
 
 
+def gen_websocket_client(rng):
+    """WebSocket client -> server pair corresponded with the model: the client's masking keys are fixed by the case
+    (head WC:<key,key,..>; the harness wraps GetInsecurePseudoRandomNumber32 at link time), one key per queued Message"""
+    nm = rng.choice([1, 2, 3, 5])
+    qs = ["q:" + hexs(rand_body(rng, rng.random() < 0.1)) for _ in range(nm)]
+    keys = ",".join(hexs(bytes(rng.choice([0, 1, 0x80, 0xff, rng.randrange(256)]) for _ in range(4))) for _ in range(nm))
+    return "WC:%s|" % keys + ";".join(interleave(rng, qs, rng.choice([0, 2, 4, 8]), drain(rng, 3, rng.choice([0, 0, 30]))))
+
+
 def gen_stress(rng):
     """oracle-only: dataio/StressTestParserProxyDataIO between the sender and the scripted transport, as a second,
     independent segmenter (min/max child write sizes in the head; op f = WriteBufferedOutput under a script)"""
@@ -570,7 +579,7 @@ def directed():
     # WebSocket: slave frames whose size sits on the 7-bit / 16-bit / 64-bit length-field boundaries, both directions
     for sz in (125, 126, 127, 65535, 65536, 65537):
         wb = body_of_size(_r.Random(sz), sz - 8)
-        for whead in ("WC", "WS"):
+        for whead in ("WC", "WC:01020304", "WS"):
             out.append("%s|q:%s;o:%s:%s;i:%s:%s;i:%s:%s" % (whead, hexs(wb), ALL, ",".join([ALL] * 4), ALL, ",".join(["7"] * 50), ALL, ",".join([ALL] * 20)))
     # templating gateway, cache budget = two templates (each 56 bytes): A, B, A' (collides with A, sent plain, must NOT touch
     # the LRU order on either end), C (forces a trim: both ends must evict the same template), then A and B again
@@ -619,6 +628,8 @@ class CHECK(vlib.Check):
     prop_file = "Properties_C03.v"
     model = ("Gw/GwExtract.v", "gw_driver.ml", "gw", ("ocommon.ml",))
     harness = dict(name="gw", src="gw_h.cpp", san="asan", link_lib=True,
+                   # calls of the library to its PRNG go through the harness, which can supply WebSocket masking keys
+                   extra_flags=("-Wl,--wrap=_ZN6muscle31GetInsecurePseudoRandomNumber32Ej",),
                    c_srcs=("lang/c/minimessage/MiniMessage.c", "lang/c/minimessage/MiniMessageGateway.c",
                            os.path.join(vlib.VERIF, "harness", "gw_c_micromsg.c"), "lang/c/micromessage/MicroMessageGateway.c"))
     modelled = ("iogateway/MessageIOGateway.cpp stream mode: DoOutputImplementation/SendMoreData, DoInputImplementation/"
@@ -633,8 +644,9 @@ class CHECK(vlib.Check):
                 "Messages are opaque flattened bytes at this level (Message codec: C01). "
                 "WebSocketMessageIOGateway.cpp after the handshake with MessageIOGateway slaves: CreateReplyFrame, the header/payload "
                 "receive loop, un-masking, fragments, binary/close/continuation/pong frames (corresponded: server->client pair and a "
-                "server receiver fed client frames built by the generator; TEXT/PING frames and the HTTP handshake are not modelled). "
-                "Harness oracle only (not modelled): WebSocket client sender (random masking keys), "
+                "server receiver fed client frames built by the generator, client->server pair with the masking keys fixed by the case "
+                "through a link-time wrapper of the PRNG; TEXT/PING frames and the HTTP handshake are not modelled). "
+                "Harness oracle only (not modelled): WebSocket client sender with its own random keys, "
                 "the C mini/micro gateways against the C++ one, zlib under the templating gateway, packet-mode (UDP-style) "
                 "operation of the binary/text/raw gateways, StressTestParserProxyDataIO as second segmenter.")
     premises = ["memory safety and object lifetime of the C++ (observed by ASan/UBSan in the harness only)",
@@ -685,6 +697,7 @@ class CHECK(vlib.Check):
             for _ in range(3):
                 out.append(("websocket", gen_websocket(rng, "WS")))
                 out.append(("websocket", gen_ws_recv(rng)))
+                out.append(("websocket", gen_websocket_client(rng)))
             for _ in range(3):
                 out.append(("stress-proxy-oracle", gen_stress(rng)))
         for j in range(6 if tier == "quick" else 40):
@@ -705,6 +718,11 @@ class CHECK(vlib.Check):
             site = site.split("/repo/")[-1] if "/repo/" in site else re.sub(r"^/tmp/wt-[^/]+/", "", site)
             return "crash: MCRASH at " + site
         return sig
+
+    def fail_key(self, f):
+        """what must stay the same while shrinking / what groups failures: the oracle text without its counters"""
+        kind, sig = super().fail_key(f)
+        return (kind, re.sub(r"\(\d+ of \d+ items[^)]*\)", "(..)", re.sub(r"\b\d+\+?\d* of \d+\b", "n of m", sig)))
 
     def nontrivial(self, case):
         return ("q:" in case or "x:" in case) and ";i:" in case
